@@ -572,10 +572,9 @@ def family_phase(ctx, builds=None):
 
 def lean_phase(ctx, extra_targets=()):
     """build + audit; fills ctx.obligations/discharged"""
-    with lean_lock():
-        _lean_phase(ctx, extra_targets)
-        if ctx.build_ok:
-            family_phase(ctx)
+    _lean_phase(ctx, extra_targets)      # (locks around its `lake build` only: the thorough tier's leanchecker is slow)
+    if ctx.build_ok:
+        family_phase(ctx)                # regenerate + build + audit under one lock: lean/Gen is shared by concurrent checks
 
 
 def _lean_phase(ctx, extra_targets=()):
